@@ -5,7 +5,7 @@
 use crate::workload::{B, Case};
 use vcommon::Rng;
 
-pub const KNOWN: [&str; 13] = [
+pub const KNOWN: [&str; 14] = [
     "known_width_div",
     "known_width_shr",
     "known_width_index",
@@ -19,6 +19,7 @@ pub const KNOWN: [&str; 13] = [
     "known_allones_literal",
     "simdefect_fn_arg_context",
     "known_signed_compare",
+    "known_signed_part_select",
 ];
 
 pub fn probe(rng: &mut Rng, which: u64) -> Case {
@@ -151,6 +152,14 @@ pub fn probe(rng: &mut Rng, which: u64) -> Case {
             let o = b.output(1 + rng.usize(6), false);
             let op = *rng.pick(&["<:", "<=", ">:", ">="]);
             b.b(&format!("    assign {o} = {a} {op} {c};"));
+        }
+        13 => {
+            // a bit / part select of a signed variable is unsigned: it must be zero-extended
+            let w = 3 + rng.usize(6);
+            let a = b.input(w, true);
+            let o = b.output(w + 3, false);
+            let hi = 1 + rng.usize(w - 2);
+            b.b(&format!("    assign {o} = {a}[{hi}:0];"));
         }
         _ => unreachable!(),
     }
